@@ -502,6 +502,9 @@ func (bh *Header) AddReference(r *Reference) error {
 		if r.uri == nil {
 			r.uri = er.uri
 		}
+		if len(r.otherTags) == 0 {
+			r.otherTags = er.otherTags
+		}
 		r.owner = bh
 		r.id = dupID
 		er.owner = nil
